@@ -329,7 +329,7 @@ Proof.
     + unfold outp. apply node_view_upd_same. reflexivity.
     + unfold req_of, option_map. apply node_view_upd_same. reflexivity.
   - split; intros; [|reflexivity]. unfold grp_of. apply node_view_upd_same. reflexivity.
-  - apply skeleton_upd_node.
+  - apply skeleton_upd_node. reflexivity.
 Qed.
 
 Lemma push_clk_valid : forall g n nd, getn g n = Some nd -> clk_validb (push_clk g n) (n, length (n_clks nd)) = true.
@@ -366,10 +366,10 @@ Qed.
 Lemma upd_ref_InvS : forall g n (h : node -> node),
   (forall nd, n_ins (h nd) = n_ins nd) -> (forall nd, n_outs (h nd) = n_outs nd) ->
   (forall nd, n_grp (h nd) = n_grp nd) -> (forall nd, n_clks (h nd) = n_clks nd) ->
-  (forall nd, n_req (h nd) = n_req nd) ->
+  (forall nd, n_req (h nd) = n_req nd) -> (forall nd, n_role (h nd) = n_role nd) ->
   InvS g -> InvS (upd_node g n h) /\ nframe g (upd_node g n h).
 Proof.
-  intros g n h H1 H2 H3 H4 H5 I.
+  intros g n h H1 H2 H3 H4 H5 H6 I.
   assert (F : nframe g (upd_node g n h)).
   { repeat split; intros.
     - unfold drv. apply node_view_upd_same. intros; rewrite H1; auto.
@@ -377,7 +377,7 @@ Proof.
     - unfold req_of, option_map. apply node_view_upd_same. intros; rewrite H5; auto. }
   split; auto. apply (InvS_cframe g); auto.
   - split; intros; [|reflexivity]. unfold grp_of. apply node_view_upd_same. auto.
-  - apply skeleton_upd_node.
+  - apply skeleton_upd_node. auto.
   - eapply consistent_ext; [apply I| |reflexivity].
     intros. unfold clk_of. apply node_view_upd_same. intros; rewrite H4; auto.
 Qed.
@@ -529,7 +529,7 @@ Proof.
   - unfold grp_of. apply node_view_upd_same. reflexivity.
   - unfold clk_of. apply node_view_upd_same. reflexivity.
   - unfold clk_validb. apply node_view_upd_same. reflexivity.
-  - apply skeleton_upd_node.
+  - apply skeleton_upd_node. reflexivity.
 Qed.
 
 Lemma resizeInputs_unfold : forall g n k nd, getn g n = Some nd ->
@@ -639,7 +639,7 @@ Proof.
   - unfold grp_of. apply node_view_upd_same. reflexivity.
   - unfold clk_of. apply node_view_upd_same. reflexivity.
   - unfold clk_validb. apply node_view_upd_same. reflexivity.
-  - apply skeleton_upd_node.
+  - apply skeleton_upd_node. reflexivity.
 Qed.
 
 Lemma resizeOutputs_unfold : forall g n k nd, getn g n = Some nd ->
